@@ -269,11 +269,13 @@ fn rule_zero_to_const(
     memory_out: &mut AvailableValueMap<MemoryLocation>,
     memory_in: &AvailableValueMap<MemoryLocation>,
 ) {
+    // Only facts that survived the node are rewritten: what the node overwrote
+    // (a register it writes, a stack slot it stores to) keeps its new value.
     for (reg, val) in available_in {
         match val {
             AvailableValue::OriginalRegisterWithScalar(r, i)
             | AvailableValue::RegisterWithScalar(r, i) => {
-                if r.is_const_zero() {
+                if r.is_const_zero() && available_out.get(reg) == Some(val) {
                     available_out.insert(*reg, AvailableValue::Constant(*i));
                 }
             }
@@ -284,7 +286,7 @@ fn rule_zero_to_const(
         match val {
             AvailableValue::OriginalRegisterWithScalar(r, i)
             | AvailableValue::RegisterWithScalar(r, i) => {
-                if r.is_const_zero() {
+                if r.is_const_zero() && memory_out.get(mem_loc) == Some(val) {
                     memory_out.insert(mem_loc.clone(), AvailableValue::Constant(*i));
                 }
             }
